@@ -58,6 +58,7 @@ type env struct {
 	disk    filesystem.Filespace
 	cache   *fscache.Cache
 	origin  filesystem.Filespace // the object the view was derived from (nil: the raw store)
+	after   []func()             // run before the environment is removed (restore process state)
 }
 
 func newEnv(disk bool) (*env, func(), error) {
@@ -82,12 +83,24 @@ func newEnv(disk bool) (*env, func(), error) {
 		for _, dd := range storeDirs {
 			os.MkdirAll(filepath.Join(e.hostDir, dd), 0777)
 		}
+		// a look-alike of the store below another directory (where a view whose root is resolved against
+		// the working directory at call time would end up after a chdir)
+		for p, c := range storeFiles {
+			fp := filepath.Join(d, "elsewhere", "store", p)
+			os.MkdirAll(filepath.Dir(fp), 0777)
+			os.WriteFile(fp, []byte("DECOY:"+c), 0644)
+		}
 		// a canary next to the store itself
 		os.WriteFile(filepath.Join(d, "host-canary.txt"), []byte("CANARY-host"), 0644)
 		if e.disk, err = diskfs.NewFilespace(e.hostDir); err != nil {
 			return nil, nil, err
 		}
-		return e, func() { os.RemoveAll(d) }, nil
+		return e, func() {
+			for _, f := range e.after {
+				f()
+			}
+			os.RemoveAll(d)
+		}, nil
 	}
 	e.mem, _ = memfs.NewFilespace()
 	for p, c := range storeFiles {
@@ -127,6 +140,43 @@ func views() []viewKind {
 	add("disk-root", "v", true, func(e *env) (filesystem.Filespace, error) { return diskfs.NewFilespace(filepath.Join(e.hostDir, "v")) })
 	add("disk-child", "v", true, func(e *env) (filesystem.Filespace, error) { return chain(e.disk, "v") })
 	add("disk-child-of-child", "v/n", true, func(e *env) (filesystem.Filespace, error) { return chain(e.disk, "v", "n") })
+	// a disk view created from a RELATIVE root; afterwards the process changes its working directory to
+	// a place that holds a look-alike tree under the same relative path (the view's root is what it was
+	// when the view was created - process state is environment, not part of the view)
+	add("disk-root-relative-then-chdir", "v", true, func(e *env) (filesystem.Filespace, error) {
+		cwd0, err := os.Getwd()
+		if err != nil {
+			return nil, err
+		}
+		e.after = append(e.after, func() { os.Chdir(cwd0) })
+		if err := os.Chdir(filepath.Dir(e.hostDir)); err != nil {
+			return nil, err
+		}
+		fs, err := diskfs.NewFilespace(filepath.Join("store", "v"))
+		if err != nil {
+			return nil, err
+		}
+		return fs, os.Chdir(filepath.Join(filepath.Dir(e.hostDir), "elsewhere"))
+	})
+	add("disk-child-of-relative-then-chdir", "v/n", true, func(e *env) (filesystem.Filespace, error) {
+		cwd0, err := os.Getwd()
+		if err != nil {
+			return nil, err
+		}
+		e.after = append(e.after, func() { os.Chdir(cwd0) })
+		if err := os.Chdir(filepath.Dir(e.hostDir)); err != nil {
+			return nil, err
+		}
+		fs, err := diskfs.NewFilespace(filepath.Join("store", "v"))
+		if err != nil {
+			return nil, err
+		}
+		ch, err := chain(fs, "n")
+		if err != nil {
+			return nil, err
+		}
+		return ch, os.Chdir(filepath.Join(filepath.Dir(e.hostDir), "elsewhere"))
+	})
 	// views whose root is an empty directory inside an otherwise empty directory
 	add("memfs-child-empty", "w/e", false, func(e *env) (filesystem.Filespace, error) { return chain(e.mem, "w", "e") })
 	add("disk-root-empty", "w/e", true, func(e *env) (filesystem.Filespace, error) { return diskfs.NewFilespace(filepath.Join(e.hostDir, "w", "e")) })
